@@ -325,8 +325,8 @@ fn emit_eval(out: &mut Out, text: &str, ord: &[(String, usize)]) {
 // S-tok
 
 /// one character per alternation / boundary of the tokenizer regex
-const TOK_ALPHABET: [char; 22] = [
-    'a', '1', '\'', '_', ' ', '"', '{', '}', '<', '=', '>', '-', '!', '&', '|', '(', '[', ',', '#', 'é', '٣', '\0',
+const TOK_ALPHABET: [char; 23] = [
+    'a', '1', '\'', '_', ' ', '"', '{', '}', '<', '=', '>', '-', '!', '&', '|', '(', '[', ',', '#', 'é', '٣', '\0', '\\',
 ];
 
 pub const SPELLINGS: [&str; 48] = [
@@ -1323,6 +1323,7 @@ pub fn real_evalid(bytes: &[u8], ord: &[(String, usize)], mode: &str) -> String 
 fn emit_evalid(out: &mut Out, text: &str, ord: &[(String, usize)]) {
     for mode in ["d", "c"] {
         let args = Sx::l(vec![ordering_id_sx(ord), text_sx(text), Sx::a(mode)]);
+        Out::starting("evalid", &args.show());
         out.emit("evalid", &args.show(), &real_evalid(text.as_bytes(), ord, mode));
     }
 }
@@ -1402,6 +1403,7 @@ fn craft(text: &str, names: &[&str], target: &str, pivot: &str, salt: u64) -> Op
             .collect()
     };
     let eval = |o: &[(String, usize)]| -> Option<Rc<BDD<NamedSymbol>>> {
+        Out::starting("evalid", &Sx::l(vec![ordering_id_sx(o), text_sx(text), Sx::a("d")]).show());
         let p = ParsedFormula::new(&mut BufReader::new(text.as_bytes()), to_symbols(o)).ok()?;
         Some(p.eval())
     };
@@ -1461,6 +1463,7 @@ fn craft_pair(ta: &str, tb: &str, names: &[&str], target: &str, salt: u64) -> Op
             .collect()
     };
     let eval = |t: &str, o: &[(String, usize)]| -> Option<Rc<BDD<NamedSymbol>>> {
+        Out::starting("evalid", &Sx::l(vec![ordering_id_sx(o), text_sx(t), Sx::a("d")]).show());
         let p = ParsedFormula::new(&mut BufReader::new(t.as_bytes()), to_symbols(o)).ok()?;
         Some(p.eval())
     };
@@ -1616,7 +1619,15 @@ pub fn part_evallong(out: &mut Out, o: &Opts) {
         ite.push('c');
         texts.push(ite);
     }
+    // comment and quoting characters: backslashes before the closing quote, primes and quotes at either end of the text
+    for t in [
+        "\"c:\\data\\\" a & b", "\"x\\\"\na & b\n\"y\"\n| c", "x | y \"or z\\\"", "a \\ b", "a\\", "\\a & b", "\"\\\\\" a", "(y <=> x) & y'", "'p | (p & q)", "a | b \"or c\"",
+        "\"not\" a & b", "'a'", "''", "a' & 'a", "\"a\" \"b\" c", "`a` & b", "a & b # c", "a & b // c", "a & b /* c */", "a & b -- c", "{a} | {a", "a; b",
+    ] {
+        texts.push(t.to_string());
+    }
     for t in texts {
+        Out::starting("eval", &Sx::l(vec![ordering_sx(&[]), text_sx(&t)]).show());
         emit_tok(out, &t, &[]);
         emit_eval(out, &t, &[]);
     }
